@@ -447,7 +447,7 @@ func runWalletHist(c *Ctx) {
 	for h := 0; h < n; h++ {
 		runHistory(c, h)
 	}
-	for k := 0; k < 8; k++ {
+	for k := 0; k < 12; k++ {
 		rotationNoticedBy(c, k)
 	}
 	longRun(c, 0)
@@ -648,13 +648,19 @@ func rotationNoticedBy(c *Ctx, k int) {
 	first := []string{"send-swap", "melt", "mint", "receive"}[k%4]
 	// k >= 4: the rotation also changes the input fee, and sends ask for includeFees (the fee of the recipient's proofs
 	// is the NEW keyset's; inputs of the old keyset are charged the OLD keyset's fee)
+	// k >= 8: the same, but the operator rotates the usual way: the mint is RESTARTED with another configured fee and
+	// the rotate flag (the keysets are rebuilt from their stored rows; an old keyset keeps the fee it was created with)
 	f0, f1, withFees := uint(0), uint(0), false
+	byRestart := k >= 8
 	if k >= 4 {
 		f0, f1, withFees = 100, 500, true
 		if first == "receive" {
 			f0, f1 = 0, 1000
 		}
 		first += "+fee"
+	}
+	if byRestart {
+		first += "+restart"
 	}
 	hw, err := newHistWorld(c, "rot-"+first, []uint{f0}, 2)
 	if err != nil {
@@ -723,11 +729,18 @@ func rotationNoticedBy(c *Ctx, k int) {
 		x = 3
 	}
 	b.begin("rotate", -1, fmt.Sprintf("rotate m0 fee=%d", f1))
-	b.OpRotate(m, f1)
+	if byRestart {
+		if err := m.env.Restart(true, f1); err != nil {
+			c.Disagree([]string{"C18"}, "restart-with-rotation", err.Error(), "", nil)
+			return
+		}
+	} else {
+		b.OpRotate(m, f1)
+	}
 	m.env.Opts.FeePpk = f1
 	hw.model.rotate(hw, m, f1)
 	hw.after("rot/" + first + "/rotate")
-	switch strings.TrimSuffix(first, "+fee") {
+	switch strings.TrimSuffix(strings.TrimSuffix(first, "+restart"), "+fee") {
 	case "send-swap":
 		if withFees {
 			// an ordinary send with includeFees whose amount no subset of the coins adds up to: swapToSend prices the
